@@ -80,7 +80,8 @@ PROPS["C12"] = {
                 "int32s, ALL 2^64 double bit patterns (so every NaN payload that coincides with a pointer/int tag is inside the "
                 "quantifier), all integer widths, booleans, null, undefined, and of the NaN-box bit layer (kind predicates "
                 "partition the raw patterns; 48-bit pointer tags round-trip; wider addresses panic). The same harness source "
-                "is verified against the NaN-boxed build and the jsvalue-enum build.",
+                "is verified against the NaN-boxed build and the jsvalue-enum build. The typed-array read path (From<TypedArrayElement> "
+                "for JsValue) is checked for all bit patterns of the nine Number element kinds.",
         "note": "Trusted: Kani/CBMC, the integer reference model. Outside: heap variants beyond address tagging (no Gc under "
                 "Kani), program-level equivalence of the two representations.",
         "technique": "bounded model checking of the compiled Rust (Kani/CBMC, SAT) over the full 32/64-bit input domains, both feature configurations",
@@ -135,7 +136,8 @@ PROPS["C01"] = {
                 "call (value/operations.rs fast paths, ToInt32/ToUint32, Number::equal/sameValue/sameValueZero/lessThan): for ALL int32 "
                 "pairs and ALL double bit patterns each operator returns what ECMAScript Number::op specifies (exact integer model, "
                 "-0 and overflow side conditions, IEEE relations as integer comparisons of bit patterns) and never panics "
-                "(this is where `-2147483648 % -1` lives); plus JsValue::neg for all Numbers. The program-level quantifier of C01 is NOT decided.",
+                "(this is where `-2147483648 % -1` lives); plus JsValue::neg for all Numbers; in the jsvalue-enum configuration also strict_equals/same_value/same_value_zero for all Number "
+                "pairs and the general JsValue operator methods (add..ushr, lt..ge) for all int32 pairs with the coercions stubbed unreachable. The program-level quantifier of C01 is NOT decided.",
         "note": "Trusted: Kani/CBMC incl. its float theory, the integer reference model. Outside: everything above the operator kernels "
                 "(parser, compiler, VM control flow, coercions of non-Number operands).",
         "technique": "bounded model checking of the compiled Rust (Kani/CBMC, SAT) over full int32^2 / double domains vs integer-domain spec model",
